@@ -655,6 +655,11 @@ inline std::string classify_stderr(std::string const& err)
         return "ubsan:" + slug(t.c_str());
     }
     if (err.find("LeakSanitizer") != std::string::npos) { return "lsan:leak"; }
+    if (err.find("depends on uninitialised value") != std::string::npos) { return "vg:uninitialised-value-decides-branch"; }
+    if (err.find("Use of uninitialised value") != std::string::npos) { return "vg:use-of-uninitialised-value"; }
+    if (err.find("contains uninitialised byte") != std::string::npos) { return "vg:uninitialised-bytes-passed-on"; }
+    if (err.find("Invalid read of size") != std::string::npos) { return "vg:invalid-read"; }
+    if (err.find("Invalid write of size") != std::string::npos) { return "vg:invalid-write"; }
     return "";
 }
 
@@ -664,6 +669,8 @@ struct Runner {
     std::string out_path;
     std::string err_path;
     unsigned shard_i = 0, shard_n = 1;
+    pid_t last_child = 0;
+    unsigned stride = 1; // run only every stride-th batch (reduced slices of a workload, e.g. under valgrind)
     std::uint64_t crashes = 0, hangs = 0, spurious = 0;
 
     Case make_case(std::uint64_t id)
@@ -719,6 +726,7 @@ struct Runner {
             std::_Exit(0);
         }
         if (efd >= 0) { ::close(efd); }
+        last_child = pid;
         double t0 = now_s();
         int status = 0;
         useconds_t nap = 50;
@@ -767,6 +775,11 @@ struct Runner {
     {
         Shared* sh      = g().sh;
         std::string err = read_file(err_path.c_str(), 6000);
+        if (char const* vg = std::getenv("VF_VG_LOG")) { // valgrind writes its report to a per-process log file
+            char vp[600];
+            std::snprintf(vp, sizeof vp, "%s.%d", vg, (int)last_child);
+            err += read_file(vp, 6000);
+        }
         if (o.timeout) {
             hangs++;
             emit_parent_record("hang", "timeout", "no return within watchdog", "returns", err);
@@ -867,6 +880,9 @@ inline int run_main(int argc, char** argv, char const* prop, char const* harness
             only_case = std::strtoll(next(), nullptr, 10);
         } else if (a == "--verbose") {
             G.verbose = true;
+        } else if (a == "--stride") {
+            R.stride = (unsigned)std::strtoul(next(), nullptr, 10);
+            if (R.stride == 0) { R.stride = 1; }
         } else if (a == "--count") {
             count_only = true;
         } else {
@@ -910,6 +926,7 @@ inline int run_main(int argc, char** argv, char const* prop, char const* harness
     std::uint64_t nbatch  = (total + batch - 1) / batch;
     std::uint64_t my_cases = 0;
     for (std::uint64_t b = R.shard_i; b < nbatch; b += R.shard_n) {
+        if (R.stride > 1 && (b / R.shard_n) % R.stride != 0) { continue; }
         std::uint64_t lo = b * batch;
         std::uint64_t hi = lo + batch < total ? lo + batch : total;
         R.run_batch(lo, hi);
@@ -945,7 +962,7 @@ inline int run_main(int argc, char** argv, char const* prop, char const* harness
     }
     Json j;
     j.str("k", "summary").str("prop", prop).str("harness", harness).num("shard", R.shard_i).num("shards", R.shard_n);
-    j.num("n_enum", R.spec.n_enum).num("n_random", R.spec.n_random).num("exhaustive_enum", R.spec.exhaustive ? 1 : 0);
+    j.num("n_enum", R.spec.n_enum).num("n_random", R.spec.n_random).num("exhaustive_enum", (R.spec.exhaustive && R.stride == 1) ? 1 : 0);
     j.num("cases_assigned", my_cases).num("cases_done", sh->cases_done).num("evals", sh->evals);
     j.num("distinct", sh->dn).num("distinct_overflow", sh->doverflow).num("crashes", R.crashes).num("hangs", R.hangs);
     j.num("spurious", R.spurious).num("records", sh->records_emitted).num("suppressed", sh->records_suppressed);
